@@ -2,12 +2,170 @@
 // src/repository/resources/chain.rs against the mathematical view of a chain.
 use vstd::prelude::*;
 use vstd::std_specs::cmp::*;
+use vstd::std_specs::iter::IteratorSpec;
 use core::cmp::Ordering;
 use core::cmp::{min, max};
 
 verus! {
 
 //@include shared/chain_env.v.rs
+
+pub mod lem {
+use super::*;
+
+/// block b lies inside one block of s
+pub open spec fn covered<T: Block>(b: T, s: Seq<T>) -> bool {
+    exists|m: int| 0 <= m < s.len() && (#[trigger] s[m]).lo() <= b.lo() && b.hi() <= s[m].hi()
+}
+
+/// nothing is a subset of the empty set except the empty set
+pub broadcast proof fn lemma_subset_of_empty<T: Block>(a: Seq<T>, b: Seq<T>)
+    requires b.len() == 0, blocks_ok(a),
+    ensures #[trigger] view_subset(a, b) == (a.len() == 0),
+{
+    if a.len() > 0 {
+        assert(in_view(a, a[0].lo()));
+        assert(!in_view(b, a[0].lo()));
+    }
+}
+
+/// the lower bound of a[k] lies in no block of b
+pub broadcast proof fn lemma_lo_uncovered<T: Block>(a: Seq<T>, b: Seq<T>, k: int)
+    requires
+        0 <= k < a.len(), (#[trigger] a[k]).lo() <= a[k].hi(),
+        forall|m: int| 0 <= m < b.len() ==> (#[trigger] b[m]).hi() < a[k].lo() || a[k].lo() < b[m].lo(),
+    ensures !#[trigger] view_subset(a, b),
+{
+    assert(in_view(a, a[k].lo()));
+    assert(!in_view(b, a[k].lo()));
+}
+
+/// b[j] ends inside a[k] before a[k] does: the item after b[j] is in a but (b canonical) not in b
+pub broadcast proof fn lemma_hi_succ_uncovered<T: Block>(a: Seq<T>, b: Seq<T>, k: int, j: int)
+    requires
+        canonical(b), 0 <= k < a.len(), 0 <= j < b.len(),
+        (#[trigger] a[k]).lo() <= (#[trigger] b[j]).hi() + 1 <= a[k].hi(),
+    ensures !#[trigger] view_subset(a, b),
+{
+    let x = b[j].hi() + 1;
+    assert(in_view(a, x));
+    assert forall|m: int| 0 <= m < b.len() implies !((#[trigger] b[m]).lo() <= x <= b[m].hi()) by {
+        if m < j { assert(b[m].hi() + 1 < b[j].lo()); }
+        if m > j { assert(b[j].hi() + 1 < b[m].lo()); }
+    }
+    assert(!in_view(b, x));
+}
+
+/// same number of blocks, same bounds at every position
+pub open spec fn pointwise_eq<T: Block>(a: Seq<T>, b: Seq<T>) -> bool {
+    &&& a.len() == b.len()
+    &&& forall|i: int| 0 <= i < a.len() ==> (#[trigger] a[i]).lo() == b[i].lo() && a[i].hi() == b[i].hi()
+}
+
+/// the smallest element of view(a) is a[0].lo; it lies in view(b), so b's smallest is not larger
+pub proof fn lemma_first_lo_le<T: Block>(a: Seq<T>, b: Seq<T>)
+    requires canonical(a), canonical(b), view_subset(a, b), a.len() > 0,
+    ensures b.len() > 0, b[0].lo() <= a[0].lo(),
+{
+    let x = a[0].lo();
+    assert(in_view(a, x));
+    assert(in_view(b, x));
+    let j = choose|j: int| 0 <= j < b.len() && (#[trigger] b[j]).lo() <= x <= b[j].hi();
+    if j > 0 { assert(b[0].hi() + 1 < b[j].lo()); }
+}
+
+/// equal starts: the first block of a cannot reach beyond the first block of b (b has a gap there)
+pub proof fn lemma_first_hi_le<T: Block>(a: Seq<T>, b: Seq<T>)
+    requires canonical(a), canonical(b), view_subset(a, b), a.len() > 0, b.len() > 0, a[0].lo() == b[0].lo(),
+    ensures a[0].hi() <= b[0].hi(),
+{
+    if a[0].hi() > b[0].hi() {
+        let x = b[0].hi() + 1;
+        assert(in_view(a, x));
+        assert(in_view(b, x));
+        let j = choose|j: int| 0 <= j < b.len() && (#[trigger] b[j]).lo() <= x <= b[j].hi();
+        if j > 0 { assert(b[0].hi() + 1 < b[j].lo()); }
+    }
+}
+
+/// equal first blocks: containment carries over to the tails
+pub proof fn lemma_tail_subset<T: Block>(a: Seq<T>, b: Seq<T>)
+    requires
+        canonical(a), canonical(b), view_subset(a, b), a.len() > 0, b.len() > 0,
+        a[0].lo() == b[0].lo(), a[0].hi() == b[0].hi(),
+    ensures canonical(a.drop_first()), view_subset(a.drop_first(), b.drop_first()),
+{
+    let a1 = a.drop_first();
+    let b1 = b.drop_first();
+    assert forall|i: int| 0 <= i < a1.len() implies (#[trigger] a1[i]).lo() <= a1[i].hi() by { assert(a1[i] == a[i + 1]); }
+    assert forall|i: int, j: int| 0 <= i < j < a1.len() implies (#[trigger] a1[i]).hi() + 1 < (#[trigger] a1[j]).lo() by {
+        assert(a1[i] == a[i + 1] && a1[j] == a[j + 1]);
+    }
+    assert forall|x: int| in_view(a1, x) implies in_view(b1, x) by {
+        let i = choose|i: int| 0 <= i < a1.len() && (#[trigger] a1[i]).lo() <= x <= a1[i].hi();
+        assert(a1[i] == a[i + 1]);
+        assert(a[0].hi() + 1 < a[i + 1].lo());
+        assert(in_view(a, x));
+        assert(in_view(b, x));
+        let j = choose|j: int| 0 <= j < b.len() && (#[trigger] b[j]).lo() <= x <= b[j].hi();
+        assert(j > 0);
+        assert(b1[j - 1] == b[j]);
+    }
+}
+
+/// two canonical block sequences denoting the same set are equal block by block
+pub proof fn lemma_view_eq_pointwise<T: Block>(a: Seq<T>, b: Seq<T>)
+    requires canonical(a), canonical(b), view_eq(a, b),
+    ensures pointwise_eq(a, b),
+    decreases a.len(),
+{
+    assert(view_subset(a, b) && view_subset(b, a));
+    if a.len() == 0 {
+        if b.len() > 0 { lemma_first_lo_le(b, a); }
+    } else {
+        lemma_first_lo_le(a, b);
+        lemma_first_lo_le(b, a);
+        lemma_first_hi_le(a, b);
+        lemma_first_hi_le(b, a);
+        lemma_tail_subset(a, b);
+        lemma_tail_subset(b, a);
+        let a1 = a.drop_first();
+        let b1 = b.drop_first();
+        assert(view_eq(a1, b1));
+        lemma_view_eq_pointwise(a1, b1);
+        assert forall|i: int| 0 <= i < a.len() implies (#[trigger] a[i]).lo() == b[i].lo() && a[i].hi() == b[i].hi() by {
+            if i > 0 { assert(a1[i - 1] == a[i] && b1[i - 1] == b[i]); }
+        }
+    }
+}
+
+/// the converse needs no chain invariant
+pub proof fn lemma_pointwise_view_eq<T: Block>(a: Seq<T>, b: Seq<T>)
+    requires pointwise_eq(a, b),
+    ensures view_eq(a, b),
+{
+    assert forall|x: int| in_view(a, x) <==> in_view(b, x) by {
+        if in_view(a, x) {
+            let i = choose|i: int| 0 <= i < a.len() && (#[trigger] a[i]).lo() <= x <= a[i].hi();
+            assert(b[i].lo() <= x <= b[i].hi());
+        }
+        if in_view(b, x) {
+            let i = choose|i: int| 0 <= i < b.len() && (#[trigger] b[i]).lo() <= x <= b[i].hi();
+            assert(a[i].lo() <= x <= a[i].hi());
+        }
+    }
+}
+
+pub broadcast proof fn lemma_view_eq_iff_pointwise<T: Block>(a: Seq<T>, b: Seq<T>)
+    requires canonical(a), canonical(b),
+    ensures #[trigger] view_eq(a, b) == pointwise_eq(a, b),
+{
+    if view_eq(a, b) { lemma_view_eq_pointwise(a, b); }
+    if pointwise_eq(a, b) { lemma_pointwise_view_eq(a, b); }
+}
+
+} // mod lem
+pub use lem::*;
 
 impl<T: Block> Chain<T> {
     //@fn src/repository/resources/chain.rs :: impl<T: Block> Chain<T> :: contains_item loopiso
@@ -33,6 +191,118 @@ impl<T: Block> Chain<T> {
                 }
     //@/ghost
     //@end
+
+    //@fn src/repository/resources/chain.rs :: impl<T: Block> Chain<T> :: as_slice
+    //@spec
+        ensures r@ == self.0@,
+    //@/spec
+    //@end
+
+    //@fn src/repository/resources/chain.rs :: impl<T: Block> Chain<T> :: is_encompassed loopiso
+    //@sigsub R4 "<C: AsRef<Chain<T>>>(&self, other: &C)" "(&self, other: &Chain<T>)"
+    //@sub R4 "other.as_ref().0" "other.0"
+    //@spec
+        requires canonical(self.0@), canonical(other.0@),
+        ensures r == view_subset(self.0@, other.0@),
+    //@/spec
+    //@ghost begin
+        proof { T::ord_law(); }
+        broadcast use {lem::lemma_subset_of_empty, lem::lemma_lo_uncovered, lem::lemma_hi_succ_uncovered};
+        let ghost o0 = other.0@;
+    //@/ghost
+    //@loop "for block in self.iter()" iter=it
+            invariant
+                it.seq().len() == self.0@.len(),
+                forall|i: int| 0 <= i < self.0@.len() ==> *(#[trigger] it.seq()[i]) == self.0@[i],
+                1 <= other@.len() <= o0.len(),
+                other@ =~= o0.subrange(o0.len() - other@.len(), o0.len() as int),
+                forall|i: int| 0 <= i < it.index@ ==> covered(#[trigger] self.0@[i], o0),
+                forall|m: int, i: int| 0 <= m < o0.len() - other@.len() && it.index@ <= i < self.0@.len()
+                    ==> (#[trigger] o0[m]).hi() < (#[trigger] self.0@[i]).lo(),
+    //@/loop
+    //@loop "while other.first()"
+                invariant
+                    1 <= other@.len() <= o0.len(),
+                    other@ =~= o0.subrange(o0.len() - other@.len(), o0.len() as int),
+                    forall|m: int, i: int| 0 <= m < o0.len() - other@.len() && it.index@ <= i < self.0@.len()
+                        ==> (#[trigger] o0[m]).hi() < (#[trigger] self.0@[i]).lo(),
+                decreases other@.len(),
+    //@/loop
+    //@end
+
+    //@fn src/repository/resources/chain.rs :: impl<T: Block> PartialEq for Chain<T> :: eq as=eq_impl loopiso
+    //@spec
+        requires canonical(self.0@), canonical(other.0@),
+        ensures r == view_eq(self.0@, other.0@),
+    //@/spec
+    //@ghost begin
+        proof { T::ord_law(); }
+        broadcast use lem::lemma_view_eq_iff_pointwise;
+    //@/ghost
+    //@loop "loop"
+            invariant
+                self_iter.obeys_prophetic_iter_laws(), other_iter.obeys_prophetic_iter_laws(),
+                self_iter.decrease() is Some,
+                self_iter.remaining().len() <= self.0@.len(),
+                other_iter.remaining().len() <= other.0@.len(),
+                self.0@.len() - self_iter.remaining().len() == other.0@.len() - other_iter.remaining().len(),
+                forall|i: int| 0 <= i < self_iter.remaining().len() ==>
+                    *(#[trigger] self_iter.remaining()[i]) == self.0@[self.0@.len() - self_iter.remaining().len() + i],
+                forall|i: int| 0 <= i < other_iter.remaining().len() ==>
+                    *(#[trigger] other_iter.remaining()[i]) == other.0@[other.0@.len() - other_iter.remaining().len() + i],
+                forall|i: int| 0 <= i < self.0@.len() - self_iter.remaining().len() ==>
+                    (#[trigger] self.0@[i]).lo() == other.0@[i].lo() && self.0@[i].hi() == other.0@[i].hi(),
+            decreases self_iter.decrease().unwrap(),
+    //@/loop
+    //@end
+}
+
+impl<T: Block> core::ops::Deref for Chain<T> {
+    type Target = [T];
+    //@fn src/repository/resources/chain.rs :: impl<T: Block> ops::Deref for Chain<T> :: deref
+    //@spec
+        ensures r@ == self.0@,
+    //@/spec
+    //@end
+}
+
+// ---- vacuity guards -----------------------------------------------------------------------
+/// A concrete Block (closed u8 intervals): the assumed leaf contract incl. `ord_law` is satisfiable.
+#[derive(Clone, Copy)]
+pub struct WBlock { pub lo: u8, pub hi: u8 }
+
+impl Block for WBlock {
+    type Item = u8;
+    open spec fn val(item: u8) -> int { item as int }
+    open spec fn lo(&self) -> int { self.lo as int }
+    open spec fn hi(&self) -> int { self.hi as int }
+    open spec fn item_min() -> int { 0 }
+    open spec fn item_max() -> int { 255 }
+    proof fn ord_law() {}
+    fn new(min: u8, max: u8) -> Self { WBlock { lo: min, hi: max } }
+    fn min(&self) -> u8 { self.lo }
+    fn max(&self) -> u8 { self.hi }
+    fn next(item: u8) -> Option<u8> { if item == 255 { None } else { Some(item + 1) } }
+    fn previous(item: u8) -> Option<u8> { if item == 0 { None } else { Some(item - 1) } }
+}
+
+/// witnesses for the preconditions; both outcomes of both queries occur
+proof fn reach_queries()
+{
+    let b = WBlock { lo: 1, hi: 3 };
+    let c = WBlock { lo: 5, hi: 9 };
+    let bc = seq![b, c];
+    let cc = seq![c];
+    assert(canonical(bc) && canonical(cc) && canonical(Seq::<WBlock>::empty()));
+    assert forall|x: int| in_view(cc, x) implies in_view(bc, x) by {
+        assert(bc[1].lo() <= x <= bc[1].hi());
+    }
+    assert(view_subset(cc, bc));
+    assert(bc[0].lo() <= 2 <= bc[0].hi());
+    assert(in_view(bc, 2) && !in_view(cc, 2));
+    assert(!view_subset(bc, cc));
+    assert(view_eq(bc, bc));
+    assert(!view_eq(bc, cc));
 }
 
 } // verus!
